@@ -90,9 +90,10 @@ def driver_lines(sched, durations=None):
             s += " else " + " ".join("%d %d" % (a[0], a[1]) for a in ctl["else"])
         L.append(s)
     L.append("init " + " ".join("%d %d" % (i, sched["init"].get(str(i), 1)) for i in range(NT)))
-    for d in durations:
-        L.append("dur %d" % d)
-        L.append("run")
+    for d in durations[:-1]:
+        L.append("pause %d" % d)
+    L.append("dur %d" % durations[-1])
+    L.append("run")
     return L
 
 
@@ -146,6 +147,38 @@ def run_impl(wntr, wn, durations=None, pickle_between=False):
         if pickle_between:
             wn = pickle.loads(pickle.dumps(wn))
     return rows, wn
+
+
+def run_impl_legs(wntr, wn, durations, pickle_between=False):
+    """like run_impl but per leg: -> ([(rows, (sim_time, prev_sim_time))...], final wn); a NEW simulator object per leg,
+    the model optionally pickled and unpickled between legs.  RULE_TIMES gets one list per leg."""
+    import pickle
+    from wntr.network import controls as _c
+
+    legs = []
+    RULE_TIMES.clear()
+    for li, d in enumerate(durations):
+        wn.options.time.duration = d
+        sim = wntr.sim.WNTRSimulator(wn)
+        calls = []
+        orig = _c.ControlChecker.check
+
+        def check(self, _orig=orig, _calls=calls, _wn=wn):
+            _calls.append((self, int(_wn.sim_time)))
+            return _orig(self)
+
+        _c.ControlChecker.check = check
+        try:
+            res = sim.run_sim()
+        finally:
+            _c.ControlChecker.check = orig
+        RULE_TIMES.append([t for (o, t) in calls if o is sim._rules])
+        st = res.link["status"]
+        rows = [(int(t), {i: int(st.loc[t, "T%d" % i]) for i in range(NT)}) for t in st.index]
+        legs.append((rows, (int(wn.sim_time), int(wn._prev_sim_time))))
+        if pickle_between and li != len(durations) - 1:
+            wn = pickle.loads(pickle.dumps(wn))
+    return legs, wn
 
 
 RULE_TIMES = []
